@@ -343,7 +343,7 @@ def run(F, R, tier, M=None):
             reads = set()
             for f_, t_, ty_ in hits:
                 S_ = Struct(f_)
-                for cond, pol in [g for g in S_.guards(t_) if g[0] != "switch"]:
+                for cond, pol in [x for g in S_.guards(t_) if g[0] != "switch" for x in _split_guard(g[0], g[1])]:
                     if re.search(crx, Renderer(f_).r(cond)):
                         for d in disjuncts(cond):
                             if re.search(crx, Renderer(f_).r(d)):
